@@ -147,6 +147,8 @@ def from_python(x):
         return T(x)
     if isinstance(x, V):
         return x
+    if type(x).__name__ == "LazyText":
+        return V("t", False, x.term if x._val is None else x._val)
     if type(x).__name__ == "LazyInt":
         return V("i", False, x.term if x._val is None else x._val)
     if hasattr(x, "__fspath__"):
